@@ -5,11 +5,11 @@ _MOD = {1: "coinswap", 2: "farm", 3: "htlc", 4: "service", 5: "token"}
 _codes = {}
 _explain = {}
 for _b, _m in _MOD.items():
-    _codes[_b * 100 + 1] = _m + ".params.changed-by-non-authority"
-    _codes[_b * 100 + 2] = _m + ".params.invalid-set-stored"
+    _codes[_b * 100 + 91] = _m + ".params.changed-by-non-authority"
+    _codes[_b * 100 + 92] = _m + ".params.invalid-set-stored"
     _codes[_b * 100 + 99] = _m + ".abort-under-accepted-params.unexplained"
-    _explain[_b * 100 + 1] = "a MsgUpdateParams not signed by the authority changed the stored parameters"
-    _explain[_b * 100 + 2] = "a parameter set that Params.Validate() does not accept was stored"
+    _explain[_b * 100 + 91] = "a MsgUpdateParams not signed by the authority changed the stored parameters"
+    _explain[_b * 100 + 92] = "a parameter set that Params.Validate() does not accept was stored"
     _explain[_b * 100 + 99] = "an operation aborted under an accepted parameter set but not under the defaults (the model does not predict this abort)"
 _why = {
     101: "coinswap.pool_creation_fee.nil-amount", 102: "coinswap.tax_rate.nil", 103: "coinswap.pool_creation_fee.dec-overflow",
